@@ -223,6 +223,38 @@ def run(ctx):
                               {'a': t1, 'b': (b.d, b.m, b.y), 'freq': fr.name, 'value': v}, clause='icma-regular')
     ctx.count('laws(additive, zero, icma-regular)', nlaw)
 
+    # ------------------------------------------------ times_from_dates: the vector helper is year_frac element by element
+    from financepy.utils.helpers import times_from_dates
+    from financepy.utils.global_vars import g_days_in_year
+    import numpy as np
+    nt = 0
+    for t1 in base[: (600 if ctx.quick() else 10000)]:
+        vd = Date(*t1)
+        ts = [shift(t1, rng.choice([0, 1, 29, 30, 31, 59, 60, 365, 366, rng.randint(0, 20000)])) for _ in range(rng.randint(1, 6))]
+        ds = [Date(*t) for t in ts]
+        for dcc in [None] + [d for d in dccs if d not in (DayCountTypes.ACT_ACT_ICMA, DayCountTypes.ACT_365L)]:
+            def one(d):
+                if dcc is None:
+                    return (d - vd) / g_days_in_year
+                return dcobj[dcc].year_frac(vd, d)[0]
+            try:
+                want = [float(one(d)) for d in ds]
+            except FinError:
+                continue
+            try:
+                got = times_from_dates(ds, vd, dcc)
+                g1 = times_from_dates(ds[0], vd, dcc)
+                ok = isinstance(got, np.ndarray) and [float(x) for x in got] == want and float(g1) == want[0]
+                shown = [float(x) for x in np.atleast_1d(got)]
+            except Exception as ex:  # noqa: BLE001
+                ok, shown = False, 'E:' + type(ex).__name__
+            nt += 1
+            if not ok:
+                ctx.violation('times_from_dates is not year_frac(value_dt, date) element by element',
+                              {'value_dt': t1, 'dates': ts, 'dcc': dcc.name if dcc else None, 'got': shown, 'want': want},
+                              clause='times_from_dates')
+    ctx.count('times_from_dates', nt, nt)
+
     ctx.assumptions += [
         'the ISDA/ICMA formulas in FinVerif/Spec/DayCount.lean are my transcription of the published definitions',
         'float division num/den is one IEEE operation (fraction compared within 4 ulp); ACT/ACT ISDA sums three terms',
